@@ -211,6 +211,10 @@ func sortedCopy(xs []string) []string {
 func c10World() map[string]spec.V {
 	w := worldSpec()
 	delete(w, "$loc")
+	// names outside ASCII are names like any other
+	w["\u540d\u79f0"] = spec.V{K: "map", M: map[string]spec.V{"\u91d1\u989d": {K: "int", S: "200"}, "a": {K: "string", S: "in"}}}
+	w["\u00e9t\u00e9"] = spec.V{K: "int", S: "7"}
+	w["\u0446\u0435\u043d\u0430"] = spec.V{K: "float64", S: "2.5"}
 	return w
 }
 
@@ -400,13 +404,13 @@ func init() {
 
 var c10Cfg = func() genCfg {
 	cfg := genCfg{
-		Names:          []string{"i", "s", "m", "st", "arr", "f64", "i64", "n", "b", "t", "$x", "$y", "$loc2", "a$b", "len", "undefinedName", "strs", "dec", "mi", "__v", "$__v", "_", "I", "S", "M", "St", "$X", "B"},
-		SelNames:       []string{"a", "b", "c", "s", "n", "Name", "Inner", "Label", "null", "typeof", "$k", "k", "__v", "_", "A", "name", "NAME", "K"},
+		Names:          []string{"i", "s", "m", "st", "arr", "f64", "i64", "n", "b", "t", "$x", "$y", "$loc2", "a$b", "len", "undefinedName", "strs", "dec", "mi", "__v", "$__v", "_", "I", "S", "M", "St", "$X", "B", "\u540d\u79f0", "\u00e9t\u00e9", "\u0446\u0435\u043d\u0430", "$\u5408\u8ba1", "\u540d\u79f0"},
+		SelNames:       []string{"a", "b", "c", "s", "n", "Name", "Inner", "Label", "null", "typeof", "$k", "k", "__v", "_", "A", "name", "NAME", "K", "\u91d1\u989d", "\u00e9"},
 		Nums:           []string{"0", "1", "2", "1.5", "10"},
 		Strs:           []string{"", "a", "hello", "l"},
 		Kws:            []string{"null", "true", "false"},
 		MaxArgs:        3,
-		Targets:        []string{"$x", "$y", "$z"},
+		Targets:        []string{"$x", "$y", "$z", "$\u5408\u8ba1"},
 		Callees:        []string{"len", "upper", "max", "fnA", "fnV", "fnS", "fnI", "toString", "abs", "m", "st", "join", "includes", "left", "undefinedName", "fn0"},
 		CalleePathOnly: true,
 		NoSpread:       false,
